@@ -326,6 +326,43 @@ Proof.
   rewrite RW. reflexivity.
 Qed.
 
+(* ... and the rows in any spelling the row rule reads (plain, blanks around commas and before the line end, empty cells, CR LF) *)
+Theorem grid_spelled_reads_any_rows g its e c (cs : list scitem) ce rows rts :
+  Forall (smitem_ok g) its -> NoDup (map fst (map skv its)) -> ~ In VERK (map fst (map skv its)) ->
+  Forall (scol_ok g) (allcols c cs) -> NoDup (map fst (allcols c cs)) ->
+  Forall (fun c0 : scol => NoDup (map fst (map skv (snd c0)))) (allcols c cs) ->
+  Forall2 (fun cells rt => length cells = length (map fst (allcols c cs)) /\ row_spelled g cells rt) rows rts ->
+  p_grid (S (S g)) true (shtext its e ++ sctext_line c cs ce ++ concat rts)
+  = Some (Ok (VGrid V30 (map skv its) (map (fun c0 : scol => (fst c0, map skv (snd c0))) (allcols c cs))
+                    (map (fun cells => combine (map fst (allcols c cs)) cells) rows)), []).
+Proof.
+  intros Hm Hmn Hmv Hco Hcn Hcm Hrows. rewrite p_grid_unfold.
+  set (sc := p_scalar (S g) true).
+  assert (CV : forall l : list scol, Forall (fun c0 : scol => NoDup (map fst (map skv (snd c0)))) l -> map scval l = map (fun c0 : scol => (fst c0, map skv (snd c0))) l).
+  { intros l Hl. induction Hl as [|c0 l Hc0 _ IH]; [reflexivity|]. cbn [map]. rewrite IH. unfold scval. rewrite (dict_of_nodup (map skv (snd c0)) Hc0). reflexivity. }
+  assert (HC : g_cols sc (sctext_line c cs ce ++ concat rts) = Some (Ok (dict_of (map scval (allcols c cs))), concat rts)).
+  { unfold allcols. cbn [map]. rewrite map_map. inversion Hco as [|? ? Hc Hcs]; subst.
+    apply scols_reads; [exact Hc|]. clear -Hcs. induction cs as [|i cs IH]; cbn [map] in *; constructor; inversion Hcs; subst; [assumption|apply IH; assumption]. }
+  assert (HR : pmany (hs_row sc) (concat rts) = Some (Ok rows, [])).
+  { unfold pmany. rewrite (rows_any g rows rts); [reflexivity| |].
+    - clear -Hrows. induction Hrows as [|cells rt rows rts [_ Hs] _ IH]; constructor; [exact Hs|exact IH].
+    - assert (NE : Forall (fun t : str => t <> []) rts) by (clear -Hrows; induction Hrows as [|cells rt rows rts [_ [Hn _]] _ IH]; constructor; assumption).
+      pose proof (concat_len rts NE). lia. }
+  unfold pact. unfold pand at 1. rewrite (sheader_reads g its e _ Hm). unfold pand. rewrite HC, HR.
+  destruct ver30_facts as [pv [PV [P3 VS]]].
+  unfold g_action. rewrite PV, P3. cbn [bind andb]. rewrite VS.
+  rewrite (dict_of_nodup (map skv its) Hmn).
+  change (s_ "ver") with VERK. rewrite (remove_key_absent VERK (map skv its) Hmv).
+  rewrite (CV (allcols c cs) Hcm).
+  assert (NK : map fst (map (fun c0 : scol => (fst c0, map skv (snd c0))) (allcols c cs)) = map fst (allcols c cs)) by (rewrite map_map; reflexivity).
+  rewrite (dict_of_nodup (map (fun c0 : scol => (fst c0, map skv (snd c0))) (allcols c cs))) by (rewrite NK; exact Hcn).
+  rewrite NK.
+  assert (RW : map (fun cells => dict_of (combine (map fst (allcols c cs)) cells)) rows = map (fun cells => combine (map fst (allcols c cs)) cells) rows).
+  { clear -Hrows Hcn. induction Hrows as [|cells ts rows rts [Hl _] _ IH]; [reflexivity|]. cbn [map]. cbn [map] in IH. rewrite IH. f_equal.
+    apply dict_of_nodup. rewrite map_fst_combine by (symmetry; exact Hl). exact Hcn. }
+  rewrite RW. reflexivity.
+Qed.
+
 Example spelled_header_example :
   zparse_grid (s_ "ver:""3.0"" a : 1 b  
 x c :""y"" , z  
@@ -335,3 +372,4 @@ x c :""y"" , z
 Proof. vm_compute. reflexivity. Qed.
 Print Assumptions grid_spelled_header_reads.
 Print Assumptions grid_spelled_reads.
+Print Assumptions grid_spelled_reads_any_rows.
